@@ -1,8 +1,8 @@
 package c12
 
 import (
-	"context"
 	"bytes"
+	"context"
 	"fmt"
 	"io"
 	"net/http"
